@@ -737,7 +737,7 @@ theorem droppedOf_get (l : List Item) : ∀ (bs : List Nat) (lo i b : Nat), vali
       | zero =>
         simp only [List.getElem?_cons_zero, Option.some.injEq] at hb
         subst hb
-        exact ⟨it, goneAfter l b nb, hit, by simp [droppedOf, hit]⟩
+        exact ⟨it, goneAfter l b0 nb, hit, by simp [droppedOf, hit]⟩
       | succ j =>
         simp only [List.getElem?_cons_succ] at hb
         obtain ⟨it', gone, h1, h2⟩ := ih _ j b hv hb (by simpa using hi)
@@ -819,6 +819,132 @@ theorem go_post (p : Params) (l : List Item) (n : Nat) :
           | succ j =>
             simp only [List.getElem?_cons_succ] at hb
             exact ihs j ln b hl hb
+
+theorem clean_top (p : Params) (l : List Item) (bs : List Nat)
+    (first : Line) (others : List Line) (h : postLineBreak p l bs = .ok (first :: others)) :
+    ∀ ln ∈ others, startsClean ln.post ln.body = true := by
+  unfold postLineBreak at h
+  cases bs with
+  | nil => simp [go] at h
+  | cons b rest =>
+    simp only [go] at h
+    split at h
+    · simp at h
+    · rename_i ln0 start' pend' hstep
+      split at h
+      · simp at h
+      · rename_i ls hgo
+        simp only [Except.ok.injEq, List.cons.injEq] at h
+        obtain ⟨_, rfl⟩ := h
+        refine go_clean p l _ rest 1 start' pend' ls hgo ?_
+        intro nb hnb
+        cases rest with
+        | nil => simp at hnb
+        | cons nb' r =>
+          simp only [List.head?_cons, Option.some.injEq] at hnb
+          subst hnb
+          exact step_clean hstep
+
+/-- A line of the model as the harness would report it. -/
+def toR (ln : Line) : RLine := (ln.flat, ln.width, ln.indent, ln.pen)
+
+theorem isDiscDropped_some (it : Item) (gone : List Item) :
+    isDiscDropped (some ⟨it, gone⟩) = isDiscOpt (some it) := by
+  cases it <;> rfl
+
+theorem specVerdict_model (p : Params) (l : List Item) (bs : List Nat) (lines : List Line)
+    (hv : ValidBreaks l bs) (h : postLineBreak p l bs = .ok lines) :
+    specVerdict p l bs (lines.map toR) = [] := by
+  have hlen : lines.length = bs.length := go_length p l _ bs 0 0 none lines h
+  have hdlen := droppedOf_length l bs 0 hv
+  have hget : ∀ i, (lines.map toR)[i]? = (lines[i]?).map toR := fun i => List.getElem?_map
+  have hline : ∀ i, i < lines.length → ∃ ln b, lines[i]? = some ln ∧ bs[i]? = some b := by
+    intro i hi
+    exact ⟨lines[i], bs[i]'(by omega), List.getElem?_eq_getElem hi, List.getElem?_eq_getElem (by omega)⟩
+  -- conservation
+  have c1 : reassemble p ((lines.map toR).map (·.1)) (droppedOf l bs) = some l := by
+    have e : (lines.map toR).map (·.1) = lines.map Line.flat := by
+      simp [List.map_map, Function.comp_def, toR]
+    rw [e]
+    have := go_conserve p l bs.length bs 0 0 none none 0 lines hv rfl h
+    simpa [reassemble] using this
+  have c2 : (lines.map toR).length = bs.length := by simpa using hlen
+  -- geometry
+  have c3 : (List.range (lines.map toR).length).all (geoAt p (lines.map toR)) = true := by
+    rw [List.all_eq_true]
+    intro i hi
+    have hi' : i < lines.length := by simpa using hi
+    obtain ⟨ln, b, hl, hb⟩ := hline i hi'
+    obtain ⟨_, _, h3, h4, _, _⟩ := go_shape p l _ bs 0 0 none lines h i ln b hl hb
+    simp only [Nat.zero_add] at h3 h4
+    unfold geoAt
+    rw [hget, hl]
+    simp [toR, h3, h4]
+  -- penalties
+  have c4 : (List.range (lines.map toR).length).all
+      (penAt p (droppedOf l bs) bs.length (lines.map toR)) = true := by
+    rw [List.all_eq_true]
+    intro i hi
+    have hi' : i < lines.length := by simpa using hi
+    obtain ⟨ln, b, hl, hb⟩ := hline i hi'
+    obtain ⟨_, _, _, _, h5, _⟩ := go_shape p l _ bs 0 0 none lines h i ln b hl hb
+    simp only [Nat.zero_add] at h5
+    have hpen := linePenalty_spec h5
+    unfold penAt
+    rw [hget, hl]
+    simp only [Option.map_some, toR]
+    by_cases hlast : i + 1 = bs.length
+    · simp only [hlast, if_true] at hpen ⊢
+      simp [hpen]
+    · simp only [hlast, if_false] at hpen ⊢
+      obtain ⟨it, gone, hit, hd⟩ := droppedOf_get l bs 0 i b hv hb (by omega)
+      rw [hd, isDiscDropped_some]
+      have e : isDiscAt l b = isDiscOpt (some it) := by unfold isDiscAt; rw [hit]
+      rw [e] at hpen
+      simp [hpen]
+  -- no leading discardable
+  have c5 : (List.range (lines.map toR).length).all (cleanAt p (droppedOf l bs) (lines.map toR)) = true := by
+    rw [List.all_eq_true]
+    intro i hi
+    have hi' : i < lines.length := by simpa using hi
+    unfold cleanAt
+    cases i with
+    | zero => simp
+    | succ j =>
+      obtain ⟨ln, b', hl, hb'⟩ := hline (j + 1) hi'
+      have hjb : j < bs.length := by omega
+      obtain ⟨itj, gonej, hitj, hdj⟩ := droppedOf_get l bs 0 j (bs[j]'hjb) hv
+        (List.getElem?_eq_getElem hjb) (by omega)
+      have hnext : ((droppedOf l bs)[j + 1]?).map (·.item) = l[b']? := by
+        by_cases hlast : j + 2 = bs.length
+        · have : (droppedOf l bs)[j + 1]? = none := by
+            apply List.getElem?_eq_none; omega
+          rw [this, validFrom_last l bs 0 (j + 1) b' hv hb' (by omega)]; rfl
+        · obtain ⟨it', gone', hit', hd'⟩ := droppedOf_get l bs 0 (j + 1) b' hv hb' (by omega)
+          rw [hd', hit']; rfl
+      obtain ⟨_, h2, _, _, _, h6⟩ := go_shape p l _ bs 0 0 none lines h (j + 1) ln b' hl hb'
+      obtain ⟨h1, _, _, _, _, _⟩ := go_shape p l _ bs 0 0 none lines h (j + 1) ln b' hl hb'
+      have hpost : ln.post = postOf (some itj) := by
+        have := (go_post p l _ bs 0 0 none lines h).2 j ln (bs[j]'hjb) hl (List.getElem?_eq_getElem hjb)
+        rw [this, hitj]
+      have hflat : ln.flat = leftPart p ++ (postOf (some itj) ++
+          (ln.body ++ (ln.brk ++ [.glue 0 p.rightSkip]))) := by
+        simp [Line.flat, h1, h2, hpost]
+      have hbody : lineBody p (some itj) l[b']? ln.flat = some ln.body := by
+        rw [hflat]
+        exact lineBody_flat p (some itj) l[b']? ln.body ln.brk h6
+      have hclean : startsClean ln.post ln.body = true := by
+        cases lines with
+        | nil => simp at hl
+        | cons first others =>
+          simp only [List.getElem?_cons_succ] at hl
+          exact clean_top p l bs first others h ln (List.mem_of_getElem? hl)
+      simp only [Nat.add_sub_cancel, Nat.succ_ne_zero, if_false, hget, hl, hdj, Option.map_some, toR,
+        hnext, hbody]
+      rw [← hpost]; exact hclean
+  unfold specVerdict
+  rw [c2] at c3 c4 c5
+  simp only [c1, c2, c3, c4, c5, if_true, List.append_nil]
 
 /-! ## inter-word glue -/
 
